@@ -9,28 +9,28 @@ BOTH = KANI + "; and " + MIRSYM
 # property -> (claim text, DESIGN section, engines)
 CLAIMED = {
     "C01": ("Totality (a value or an error, never a panic) of: every operator entry point on every ordered pair of scalar kinds, every scalar built-in/constructor reached directly, the VM jump check (Kani, all payloads); and of one run of the bytecode VM on every instruction template and of every macro body driver (mirsym: no path of run_raw / the macro functions reaches a panic, for all operand values). Source text -> tokenizer/parser/compiler and stack exhaustion are outside.", "3/C01", "both"),
+    "C02": ("The real recursive-descent parser (parse_expression and everything below it, from rustc's MIR) is executed on token sequences whose operator tokens are symbolic: for every ordered pair of the 14 binary operators `a op1 b op2 c` is grouped by the grammar's precedence and to the left on equal precedence, `a op1 (b op2 c)` keeps the parenthesised grouping, the emitted code is the post-order of that grouping (operand order on the VM stack), the emitted block is well-formed; `c ? x : y` is a conditional over (c, x, y). Unary runs, postfix chains, nested conditionals, chains of 3 and more operators, whitespace (tokenizer) and evaluation results of whole programs are outside.", "3/C02", "mirsym"),
     "C03": ("+ - * and unary - on int/uint/double/bool operands are compared with a mathematical oracle for ALL 64-bit payloads (one UNSAT proof per operator x kind pair); / and %: error predicate full width, quotient/remainder exactness for |a|,|b| < 2^15 plus a boundary set; every non-numeric pairing must be an error (Kani). The VM applies each arithmetic opcode to (first pushed, second pushed) in that order, for bound and literal operands alike (mirsym, vm_binops).", "3/C03", "both"),
     "C04": ("Complement, symmetry, reflexivity, trichotomy, <=/>= unions, mathematical int/uint order, nearest-double comparison, 'unrelated kinds fail', transitivity on triples - for all payloads of scalars, strings/bytes <= 2 bytes, durations, timestamps (Kani); the VM applies each relational opcode to its operands in source order (mirsym). sort/min/max are outside.", "3/C04", "both"),
-    "C05": ("One truthiness table across !, ||, &&, bool(), is_truthy and the absorption rules of ||/&& for every ordered pair of kinds, all payloads (Kani). VM side (mirsym): Test keeps a failure and otherwise yields the truthiness; JmpCond pops its condition, jumps iff Bool == when, treats a failing condition as 'false', rejects other kinds; stack effects of Dup/Pop/Not/Neg. The compiler's templates for ||, &&, ?: and match (which instruction sequences are emitted) are outside.", "3/C05", "both"),
+    "C05": ("One truthiness table across !, ||, &&, bool(), is_truthy and the absorption rules of ||/&& for every ordered pair of kinds, all payloads (Kani). VM side (mirsym): Test keeps a failure and otherwise yields the truthiness; JmpCond pops its condition, jumps iff Bool == when, treats a failing condition as 'false', rejects other kinds; stack effects of Dup/Pop/Not/Neg. The compiler's templates (mirsym, parser executed from MIR): the block the real parser emits for `a || b`, `a && b` and `c ? x : y` over variable operands is run on the reference machine for every truthiness/failure of the left operand or condition: b is evaluated exactly when a does not decide, exactly one of x and y is evaluated, chosen by the truthiness of c, and a failing c is the result. match, constant operands (folding) and nested combinations are outside.", "3/C05", "both"),
     "C06": ("String/bytes concatenation, size, `in`/index on scalar containers, one-element lists (Kani). VM side (mirsym): MkList(n) builds the list of the last n pushed values in push order, MkDict(n) pairs keys with values and rejects non-string keys, Index/In apply their operation to (container, index) in that order, `m.k` returns the stored field before any method of that name and an absent-field failure otherwise. List indexing arithmetic over symbolic lists and the compile-time literal construction are outside.", "3/C06", "both"),
     "C07": ("all / exists / exists_one / filter / map (2 and 3 arguments, lists and maps) / reduce: for every list length 0..=3 and every combination of per-element body outcomes (truthy, falsy, failing with any error kind) the value returned equals the defining fold and the body is evaluated exactly on the expected elements, in order, each under a binding of the loop variable to that element on an interpreter built from clones of the caller's contexts, stopping at the first deciding or failing element. What `run_raw` does with a body is outside (it is an arbitrary result here).", "3/C07", "mirsym"),
     "C08": ("has(e): true when e evaluates, false exactly for unbound-variable / absent-field failures, every other failure propagated unchanged; coalesce(e1..en), n <= 5: first result that is neither null nor absent, arguments evaluated left to right on the caller's interpreter and none after the chosen one, other failures propagated, null otherwise - for every combination of argument outcomes. Which failures the VM classifies as unbound/absent is covered for identifiers and map fields by the VM targets (C12/C06).", "3/C08", "mirsym"),
-    "C10": ("The VM's jump check accepts exactly the targets inside the block or at its end, for all (pc, dist, len) (Kani); Jmp/JmpCond in the real VM loop land on the checked target or fail, for all distances (mirsym). Well-formedness of compiler output is outside.", "3/C10", "both"),
+    "C10": ("The VM's jump check accepts exactly the targets inside the block or at its end, for all (pc, dist, len) (Kani); Jmp/JmpCond in the real VM loop land on the checked target or fail, for all distances (mirsym). The blocks the real parser emits for operator chains, parenthesised chains, ||, && and ?: are well-formed (every label resolves inside the block, forward jumps only, no pop from an empty stack, one value on every path) - decided on the emitted instructions for every operator pair (mirsym). Other constructs' output is outside.", "3/C10", "both"),
     "C12": ("JSON scalars convert to the same CelValue as direct binding (Kani). VM side (mirsym): an identifier operand resolves to a type name, then a bound variable, then a stored program run on the same interpreter, else an unbound-name failure; in call position a bound function wins over a macro over a type constructor, arguments keep source order, bytecode arguments are evaluated for functions and passed unevaluated to macros; a map field wins over a method; the call-depth counter is incremented on entry, bounds the depth (must run at depth <= 16, must fail beyond 128) and is restored on every exit path. Re-binding, re-adding programs and depth through macro bodies are outside.", "3/C12", "both"),
     "C14": ("Scalar conversions through construct_type for all payloads: int/uint/double/bool/dyn/type, range errors instead of wrapped values, truncation toward zero with saturation, type(T(x)) == T, bytes<->string on <= 2 bytes (Kani); FmtString(n) concatenates its n string segments in source order and fails on a non-string segment; the ten type constructors accept exactly the argument shapes of their overloads and answer everything else with an error (mirsym). String<->number round trips and the f-string lowering in the compiler are outside.", "3/C14", "both"),
-    "C13": ("The tokenizer on literals that make up the whole input: decimal and hexadecimal integers with and without u (1..=4 characters of any printable ASCII after a leading digit, 0x + up to 3 more, the 10000 literals around u64::MAX) carry exactly the value their digits spell or are rejected when it does not fit 64 bits; doubles are parsed from exactly their own text; quoted strings of up to 3 arbitrary characters, \\xHH, \\uHHHH, \\UHHHHHHHH, three-digit octal and the single-character escapes yield exactly the characters they spell, malformed digits and invalid code points are rejected. The int64 narrowing in the parser, raw/bytes/f-strings, longer texts and the correct rounding of doubles (std) are outside.", "3/C13", "mirsym"),
-    "C17": ("Last sentence only: filtering the reported names against a binding set removes exactly the names that set binds as variables, functions or macros (IdentFilterIter::next and BindContext::is_bound, for every sequence of up to 3 names and every binding set). That the compiler reports every identifier a program can read - the body of the property - is outside.", "3/C17", "mirsym"),
-    "C18": ("Token spans only: for every literal the tokenizer targets of C13 explore, the token's span starts at (0,0) and ends at the (line, column) reached by counting characters and restarting the column after each newline. Syntax-tree spans, nesting, sibling disjointness and error locations are produced by the parser and are outside.", "3/C18", "mirsym"),
+    "C13": ("The tokenizer on literals that make up the whole input: decimal and hexadecimal integers with and without u (1..=4 characters of any printable ASCII after a leading digit, 0x + up to 3 more, the 10000 literals around u64::MAX) carry exactly the value their digits spell or are rejected when it does not fit 64 bits; doubles are parsed from exactly their own text; quoted strings of up to 3 arbitrary characters, \\xHH, \\uHHHH, \\UHHHHHHHH, three-digit octal and the single-character escapes yield exactly the characters they spell, malformed digits and invalid code points are rejected. An integer literal token with any u64 payload becomes exactly that int64 in the parser or is a syntax error above the int64 range. f-strings, longer texts and the correct rounding of doubles (std) are outside.", "3/C13", "mirsym"),
+    "C17": ("Filtering the reported names against a binding set removes exactly the names that set binds as variables, functions or macros (IdentFilterIter::next and BindContext::is_bound, for every sequence of up to 3 names and every binding set). For operator chains, parenthesised chains and the conditional the parameter set the real parser reports is exactly the set of identifiers in the token sequence (also those in the branch not taken). Identifiers in calls, macros, f-strings, index/map/match positions are outside.", "3/C17", "mirsym"),
+    "C18": ("Token spans: for every literal the tokenizer targets of C13 explore, the token's span starts at (0,0) and ends at the (line, column) reached by counting characters and restarting the column after each newline. Syntax-tree spans: in `a op1 b op2 c` and `a op1 (b op2 c)` every node spans exactly from its leftmost to its rightmost token (parentheses included), for every operator pair, which gives nesting and sibling disjointness for these shapes. Other node kinds, re-compiling the spanned text and error locations are outside.", "3/C18", "mirsym"),
     "C19": ("Variant tags of the serde derives: for CelValue, CelError, ByteCode and JmpWhen every variant that Serialize writes - with its index tag (bincode) and its name tag (JSON) - is selected again by Deserialize's visit_u64 / visit_str, for all variants, all u64 tags and all strings; only variants no compiled program can contain may be refused. Payload encodings (millisecond timestamps/durations, nested containers), Program/ProgramDetails structs and the bindings' entry points are outside.", "3/C19", "mirsym"),
     "C15": ("Math family through the dispatch entry points for all payloads: abs, sqrt, ceil/floor/round, lg/log (error instead of panic outside the domain), pow exponent validity (all values) and exact value on bounded bases/exponents (Kani). Shapes (mirsym): for each of the 31 built-ins generated by #[dispatch] (math, string, regex, size, sort, uom) a call runs exactly the overload whose receiver/parameter kinds it matches, with the payloads in order, and every other arity or kind - also too many arguments - is an error, for every combination of 11 kinds. What the string/regex overloads compute is outside.", "3/C15", "both"),
     "C16": ("Timestamp/duration arithmetic: exact result or error outside the representable range (never a panic) on windows of instants with all durations; duration algebra d1+d2-d2==d1; duration accessors; chronological order; UTC calendar accessors against an independent civil-from-days computation. Overload resolution of the ten accessors (receiver timestamp or duration, optional zone string) for every combination of kinds (mirsym). What the zone forms compute and uomConvert are outside.", "3/C16", "both"),
 }
 
 NA = {
-    "C02": "parser precedence/associativity: the recursive-descent parser cannot be executed symbolically by either engine (Kani: HashMap/SipHash, boxed AST, ICE on regex-automata; mirsym: 1400 lines of parser MIR driving a tokenizer over std string routines with no summaries); the one VM-side anchor (operand order on the stack) is decided under C03/C04.",
-    "C09": "needs the compiler's constant folder (compile! macro, check_for_const) side by side with the VM on the same expression; the compiler is not encodable by either engine. The shared value operations are decided under C03-C06 and the VM's use of them under the vm_* targets.",
+    "C09": "needs the compiler's constant folder (compile! macro, check_for_const) side by side with the VM on the same expression for literal and variable forms; the parser is executable by mirsym on short token sequences, but folding calls the value operations, built-ins and macros at compile time, which are uninterpreted there, so agreement of the two forms is not decidable beyond what C05/C06 already state for the templates. The shared value operations are decided under C03-C06 and the VM's use of them under the vm_* targets.",
     "C11": "operation histories over HashMap-backed contexts and threads; Kani does not model threads, and HashMap iteration order (RandomState) is exactly what is intractable. mirsym shows for the macros that evaluation happens on clones of the caller's contexts (C07) but histories of the public API are not explored.",
-    "C20": "translation walks the parser's boxed AST, which cannot be built without the parser; string formatting is the subject.",
+    "C20": "the translator is a separate crate (extensions/to_sql) that walks the parser's boxed AST and builds SQL text with format!/String pushes; string formatting is the subject, which neither engine encodes (Kani: format machinery explodes; mirsym: no model of fmt::Arguments).",
 }
 
 def main():
